@@ -648,7 +648,7 @@ func Exit(code int) {
 		os.Exit(code)
 	}
 	s.mu.Lock()
-	already := s.Exited || s.Killed || s.Crashed
+	already := s.Exited || s.Killed || s.Crashed || s.down
 	if !already {
 		s.Exited = true
 		s.ExitCode = code
